@@ -542,6 +542,10 @@ pub fn text(id: u32) -> String {
 }
 
 pub struct Config {
+    /// pinned re-execution: every listed input variable is asserted equal to its model value after setup,
+    /// so exactly one path remains (used as the replay of last resort when the behaviour depends on the
+    /// host's iteration order, which only the same graph double reproduces)
+    pub pin: Option<Vec<(String, String)>>,
     pub budget_paths: u64,
     /// what a panic inside the body means: Some(check name) = violation, None = propagate as machinery fault
     pub panic_is_violation: Option<String>,
@@ -549,7 +553,7 @@ pub struct Config {
 
 impl Default for Config {
     fn default() -> Self {
-        Config { budget_paths: 20_000, panic_is_violation: Some("no_panic".into()) }
+        Config { pin: None, budget_paths: 20_000, panic_is_violation: Some("no_panic".into()) }
     }
 }
 
@@ -584,6 +588,33 @@ pub fn explore<I>(cfg: &Config, setup: impl FnOnce() -> I, body: impl Fn(&I)) ->
             return st;
         }
     };
+    if let Some(pin) = &cfg.pin {
+        with(|e| {
+            let sorts: HashMap<String, String> = e.vars.iter().cloned().collect();
+            for (k, v) in pin {
+                let lit = match sorts.get(k).map(|s| s.as_str()) {
+                    Some("Bool") => v.clone(),
+                    Some("Int") => {
+                        if let Some(r) = v.strip_prefix('-') {
+                            format!("(- {})", r)
+                        } else {
+                            v.clone()
+                        }
+                    }
+                    Some("Real") => {
+                        let (p, q) = match v.split_once('/') {
+                            Some((p, q)) => (p.to_string(), q.to_string()),
+                            None => (v.clone(), "1".to_string()),
+                        };
+                        let pl = if let Some(r) = p.strip_prefix('-') { format!("(- {}.0)", r) } else { format!("{}.0", p) };
+                        format!("(/ {} {}.0)", pl, q)
+                    }
+                    _ => continue,
+                };
+                e.solver.send(&format!("(assert (= {} {}))", k, lit));
+            }
+        });
+    }
     // base must be satisfiable, otherwise everything below is vacuous
     let base_ok = catch_unwind(AssertUnwindSafe(|| with(|e| e.solver.check())));
     match base_ok {
